@@ -63,7 +63,11 @@ INSTR = {
     'default': (['freq', 'index', 'fmh', 'amp', 'pan', 'gate'], True),
     'test': (['out', 'amp', 'gate'], True),
     'nogate': (['freq', 'amp', 'pan', 'out'], False),
+    # a definition with variants ('vari.low', 'vari.wide': presets of its
+    # controls, selected by the event's variant key)
+    'vari': (['freq', 'amp', 'pan', 'out', 'gate'], True),
 }
+VARIANTS = {'vari': ['low', 'wide']}
 # the instrument 'user' can be re-defined with another control list while
 # the program runs: (control names in slot order, has_gate) per variant
 USER_VARIANTS = [(['freq', 'amp', 'gate'], True),
@@ -216,7 +220,10 @@ def gen_case(tp, tier):
         for _ in range(1 + tp.draw(4)):
             ev = gen_keys(tp)
             ev['instrument'] = tp.choice(['default', 'default', 'test',
-                                          'nogate'])
+                                          'nogate', 'vari'])
+            if ev['instrument'] == 'vari' or tp.draw(12) == 0:
+                # (on a definition without variants the key changes nothing)
+                ev['variant'] = tp.choice(['low', 'wide'])
             evs.append(ev)
         case = {'kind': kind, 'events': evs, 'knobs': kn,
                 'clock': tp.choice(['sys', 'tempo'])}
@@ -227,7 +234,11 @@ def gen_case(tp, tier):
             # (playing writes the resolved freq, amp and sustain back into
             # the event, as sclang does: only changes that do not go through
             # those stored values have a specified effect)
-            if 'harmonic' not in ev and 'detune' not in ev:
+            # (it also writes the definition's name back as the instrument:
+            # with a variant that is 'name.variant', which is no instrument
+            # to look up the second time - not played again here)
+            if 'harmonic' not in ev and 'detune' not in ev \
+                    and 'variant' not in ev:
                 ch = {}
                 for k, vals in (('amp', [0.3, 0.05]), ('pan', [-1.0, 0.25]),
                                 ('out', [4])):
@@ -249,6 +260,7 @@ def gen_case(tp, tier):
             at = 1 + tp.draw(len(evs) - 1)
             for i, ev in enumerate(evs):
                 if i in (at - 1, at) or tp.draw(2) == 0:
+                    ev.pop('variant', None)
                     ev['instrument'] = 'user'
                     ev['_variant'] = v0 if i < at else v1
                     for k in ('pan', 'out'):
@@ -445,6 +457,9 @@ def expected_msgs(ev, t, latency):
             params += ['freq', r['freq']]      # always resolved by play()
         elif c in ev:
             params += [c, ev[c]]
+    if ev.get('variant') is not None and ev['variant'] in VARIANTS.get(
+            instr, ()):
+        instr = f'{instr}.{ev["variant"]}'
     out = [(t + latency, 's_new',
             {'instr': instr, 'action': ACTION_NUM[ev.get('add_action',
                                                          'addToHead')],
@@ -625,6 +640,13 @@ def define_instruments():
     SystemDefs.add_synthdef('default')
     SystemDefs.add_synthdef('test')
     sdf.SynthDef('nogate', nogate).add()
+    import sc3.synth.envelope as evp
+
+    def vari(freq=440, amp=0.1, pan=0, out=0, gate=1):
+        u.Out.ar(out, u.Pan2.ar(u.SinOsc.ar(freq) * amp * u.EnvGen.kr(
+            evp.Env.asr(), gate, done_action=2), pan))
+    sdf.SynthDef('vari', vari, variants={'low': {'freq': 110},
+                                         'wide': {'pan': 1}}).add()
 
 
 def define_user(variant):
